@@ -87,11 +87,24 @@ theorem dueBeforeEvent_tEvents (fwd : Bool) (xold te : K) (ip : Interp K) (tev :
     unfold dueBeforeEvent
     cases fwd <;> simp only [Bool.false_eq_true, if_false, if_true] <;> split_ifs <;> simp [ih]
 
+theorem popBeyond_tEvents (fwd : Bool) (te : K) : ∀ (f : Nat) (s : St K), (popBeyond fwd te f s).tEvents = s.tEvents := by
+  intro f
+  induction f with
+  | zero => intro s; rfl
+  | succ f ih =>
+    intro s
+    unfold popBeyond
+    split
+    · dsimp only
+      split_ifs <;> first | rfl | rw [ih]
+    · rfl
+
 theorem terminalSamples_tEvents (fwd : Bool) (xold x te : K) (ip : Option (Interp K)) (s : St K) :
     (terminalSamples fwd xold x te ip s).tEvents = s.tEvents := by
   unfold terminalSamples
   split
-  · exact dueBeforeEvent_tEvents ..
+  · rw [dueBeforeEvent_tEvents, popBeyond_tEvents]
+  · exact popBeyond_tEvents ..
   · split
     · dsimp only; split_ifs <;> rfl
     · rfl
